@@ -335,6 +335,26 @@ def shrink(mod, binpath, drvpath, case, kind):
     return cur
 
 
+def translate_others(prop, notes):
+    """run every other property's (G) translator (idempotent: files are rewritten only when their content changes)"""
+    out = {}
+    pdir = os.path.join(ROOT, 'tools', 'props')
+    for name in sorted(os.listdir(pdir)):
+        m = re.fullmatch(r'(c\d\d)\.py', name)
+        if not m or m.group(1) == prop.lower():
+            continue
+        try:
+            other = importlib.import_module('props.' + m.group(1))
+            fn = getattr(other, 'translate_only', None) or getattr(other, 'translate', None)
+            if fn is None:
+                continue
+            info = fn(REPO, LEAN) or {}
+            out[m.group(1).upper()] = {'changed': bool(info.get('changed'))}
+        except Exception as e:   # another property's translator must never break this check
+            notes.append('translator of %s failed: %r' % (m.group(1).upper(), e))
+    return out
+
+
 def run_check(prop, tier='quick', seed=None, replay=None):
     gen_dir = os.path.join(LEAN, 'Ruint', 'Gen')
 
@@ -372,6 +392,13 @@ def _run_check(prop, tier='quick', seed=None, replay=None):
     gen_info = {}
     if hasattr(mod, 'translate'):
         gen_info = mod.translate(REPO, LEAN)
+    # the other properties' generated files too: this property's theorems may rest on them (C03/C04/C10 import the
+    # division, addition, Lehmer ... developments), so a change there must break this property's obligations as well
+    others = translate_others(prop, notes)
+    if others:
+        gen_info['other_generated'] = others
+        if any(v.get('changed') for v in others.values()):
+            gen_info['changed'] = True
     binpath, timings['cargo_s'] = build_harness(mod.BIN)
 
     # 2. proof obligations
